@@ -339,12 +339,34 @@ CallPreserved(c, i) ==
      ELSE /\ acts' = Append(acts, [u |-> ids[i].u, lv |-> ids[i].lv, last |-> 1, fin |-> FALSE, ty |-> "eliot:remote_task",
                                    succ |-> {}, node |-> ids[i].node, inwith |-> FALSE])
           /\ ids' = [ids EXCEPT ![i].used = TRUE]
-          /\ work' = <<[t |-> "pc_exit", a |-> Len(acts) + 1], [t |-> "pc_log", a |-> Len(acts) + 1], [t |-> "pc_enter", a |-> Len(acts) + 1],
+          /\ work' = <<[t |-> "pc_exit", a |-> Len(acts) + 1, o |-> "ok"], [t |-> "pc_log", a |-> Len(acts) + 1], [t |-> "pc_enter", a |-> Len(acts) + 1],
                        WriteItem(Msg(ids[i].u, Append(ids[i].lv, 1), "start", "eliot:remote_task", "started", {}, ""))>>
           /\ nodes' = [nodes EXCEPT ![ids[i].node].st = "started"]
           /\ nmsgs' = nmsgs + 1 /\ UNCHANGED nuuid
           /\ Begin(c, "ok", [op |-> "CallPreserved", c |-> c, i |-> i])
   /\ UNCHANGED <<cur, blocks, born, base, dests, anyAdded, buffer, gf, reg, offered, ret, nfaults, dev, gh>>
+
+\* f(...) for a function decorated with log_call whose body logs one message: one action of the function's type around the
+\* call -- start message with the bound arguments, the body's message inside it, end message with the result, or a failed end
+\* and the SAME exception propagating
+CanLogCall(c) == Idle /\ born[c] /\ ActOK(c)
+LogCall(c, o) ==
+  /\ CanLogCall(c) /\ Room /\ Len(acts) < MaxActs /\ o \in {"ok", "exc"}
+  /\ (cur[c] # 0 => Len(acts[cur[c]].lv) < MaxDepth)
+  /\ LET p == cur[c]
+         u == IF p = 0 THEN nuuid + 1 ELSE acts[p].u
+         lv == IF p = 0 THEN <<>> ELSE LevelIn(acts, p)
+         A0 == IF p = 0 THEN acts ELSE AllocIn(acts, p)
+         a == Len(acts) + 1
+     IN /\ nuuid' = IF p = 0 THEN nuuid + 1 ELSE nuuid
+        /\ acts' = Append(A0, [u |-> u, lv |-> lv, last |-> 1, fin |-> FALSE, ty |-> "LC",
+                               succ |-> IF o = "ok" THEN {"result"} ELSE {}, node |-> Len(nodes) + 1, inwith |-> FALSE])
+        /\ work' = <<[t |-> "pc_exit", a |-> a, o |-> o], [t |-> "pc_log", a |-> a], [t |-> "pc_enter", a |-> a],
+                     WriteItem(Msg(u, Append(lv, 1), "start", "LC", "started", {"x", "y"}, ""))>>
+  /\ nodes' = AddNode(NodeOfCur(c), "act", "LC", "started")
+  /\ nmsgs' = nmsgs + 1
+  /\ Begin(c, IF o = "ok" THEN "ok" ELSE "app", [op |-> "LogCall", c |-> c, o |-> o])
+  /\ UNCHANGED <<cur, blocks, born, base, ids, dests, anyAdded, buffer, gf, reg, offered, ret, nfaults, dev, gh>>
 
 \* a new thread starts with no current action; an asyncio task inherits the creator's
 Spawn(c, c2, kind) ==
@@ -524,9 +546,9 @@ PcExit ==
   /\ LET b == Last(blocks[call.c]) IN
      /\ cur' = [cur EXCEPT ![call.c] = b.saved]
      /\ blocks' = [blocks EXCEPT ![call.c] = Front(@)]
-     /\ work' = Pop \o FinishWork(acts, Top.a, "ok")
+     /\ work' = Pop \o FinishWork(acts, Top.a, Top.o)
      /\ acts' = [MarkFin(acts, Top.a) EXCEPT ![Top.a].inwith = FALSE]
-     /\ nodes' = NodeSt(nodes, acts, Top.a, "ok")
+     /\ nodes' = NodeSt(nodes, acts, Top.a, Top.o)
   /\ UNCHANGED <<born, base, nuuid, ids, dests, anyAdded, buffer, gf, reg, offered, call, ret, nfaults, nmsgs, dev, gh, hist>>
 
 \* the public call returns to the application
@@ -561,6 +583,7 @@ Next ==
        \/ \E o \in Outcomes : (o \in ExtOutcomes => F("ext")) /\ Exit(c, o)
        \/ \E ty \in MsgTypes : (ty \in {"M", "N", "N0"} => F("typed")) /\ (ty = "h" => F("hostile")) /\ Log(c, ty)
        \/ F("raw") /\ RawWrite(c)
+       \/ F("logcall") /\ \E o \in {"ok", "exc"} : LogCall(c, o)
        \/ F("tb") /\ \E o \in {"exc", "x1"} : (o = "x1" => F("ext")) /\ WriteTraceback(c, o)
        \/ F("ext") /\ \E k \in {"E0", "E1", "E2"} : Register(c, k)
        \/ F("remote") /\ (SerializeId(c) \/ \E i \in DOMAIN ids : ContinueTask(c, i))
@@ -622,9 +645,9 @@ C03_OneStartOneEnd == (Idle /\ NoSerFail) => \A d \in Dest : Healthy(d) => \A a 
 C03_StatusTruthful == (Idle /\ NoSerFail) => \A d \in Dest : Healthy(d) => \A a \in DOMAIN acts :
                         \A e \in Own(Stream(d), a, "end") : Stream(d)[e].st = nodes[acts[a].node].st
 C03_FieldPlacement == \A d \in Dest : \A i \in DOMAIN offered[d] : LET m == Stream(d)[i] IN
-                        /\ (m.k = "start" /\ m.rep = "") => m.f \cap {"y", "z", "exception", "reason", "e0", "e1", "e2"} = {}
-                        /\ (m.k = "end" /\ m.st = "failed") => m.f \cap {"y", "z", "sa", "x"} = {} /\ {"exception", "reason"} \subseteq m.f
-                        /\ (m.k = "end" /\ m.st = "succeeded") => m.f \cap {"sa", "x", "exception", "reason", "e0", "e1", "e2"} = {}
+                        /\ (m.k = "start" /\ m.rep = "") => m.f \cap {"z", "result", "exception", "reason", "e0", "e1", "e2"} = {}
+                        /\ (m.k = "end" /\ m.st = "failed") => m.f \cap {"z", "sa", "result"} = {} /\ {"exception", "reason"} \subseteq m.f
+                        /\ (m.k = "end" /\ m.st = "succeeded") => m.f \cap {"sa", "exception", "reason", "e0", "e1", "e2"} = {}
 
 ---- (* C04 / C05: the context variable *)
 C04_Inside == \A c \in Ctx : cur[c] = IF blocks[c] = <<>> THEN base[c] ELSE Last(blocks[c]).act
